@@ -71,6 +71,18 @@ def magic_table(ctx, chain):
             names = pos if names is None else names & pos
         for n in names or []:
             out[n] = slot
+    # `self.X = Some(ident.clone())` / `self.X = field.ident.clone()` under the name test
+    for blk, i, st in f.stmts():
+        if st["k"] == "assign" and st["p"]["local"] == 1 and st["p"]["proj"]:
+            flds = [e for e in st["p"]["proj"] if e["k"] == "field"]
+            v = ctx.expr(f, st["r"])
+            if flds and re.search(r"clone\((\(a2\.ident as Some\)\.0|a2\.ident)\)", v):
+                names = None
+                for d in ctx.pc_strs(f, blk):
+                    pos = {m.group(1) for a in d for m in [re.search(r', "(\w+)"\)=True$', a)] if m}
+                    names = pos if names is None else names & pos
+                for n in names or []:
+                    out.setdefault(n, flds[-1]["name"])
     return out, f
 
 
@@ -90,7 +102,7 @@ def run(ctx):
     for chain in MAGIC:
         f = ctx.fn(PF % chain)
         if f:
-            src = sorted({m.group(1) for c, v in resalg.cases(ctx, f) for a in c for m in [re.match(r'^.*PartialEq for str>::eq\((.*), "\w+"\)=(?:True|False)$', a)] if m})
+            src = sorted({m.group(1) for c, v in resalg.cases(ctx, f) for a in c for m in [re.match(r'^.*(?:PartialEq for str>|PartialEq<T>>|PartialEq<&B> for &A>)::eq\((.*), "\w+"\)=(?:True|False)$', a)] if m})
             ctx.ob("C16.G.matched-on-rust-name", f.key, "field.ident.as_ref().map(to_string).as_deref()", bool(src) and all("a2.ident" in s for s in src), "%s" % [s[:120] for s in src])
     # ---------------------------------------------------------------- options → impl wiring and templates
     for gen, (opts, fields) in IMPLS.items():
@@ -152,7 +164,10 @@ def run(ctx):
                 if m:
                     arms.setdefault(m.group(1), []).append((conds, v))
         ctx.ob("C16.E.data-kinds", f.key, "Enum / Struct / Union", set(arms) == {"Enum", "Struct", "Union"}, "%s" % sorted(arms))
-        ok = any(v.startswith("darling_core::error::Accumulator::finish_with(") and "Data::Enum{" in v for c, v in arms.get("Enum", []))
+        # (`finish_with(x)` reads as: Ok(x) when finish() is Ok, finish()'s error otherwise)
+        en_ = arms.get("Enum", [])
+        ok = any(v.startswith("core::result::Result::Ok{darling_core::ast::data::Data::Enum{") and any(re.match(r"^is_ok\(.*Accumulator::finish\(.*\)\)=True$", a) for a in c) for c, v in en_) \
+            and all(v.startswith("core::result::Result::Ok{darling_core::ast::data::Data::Enum{") or re.match(r"^core::result::Result::Err\{\(.*Accumulator::finish\(.*\) as Err\)\.0\}$", v) for c, v in en_)
         ctx.ob("C16.E.enum-stays-enum", f.key, "Enum → finish_with(Data::Enum(items))", ok, "%s" % [v[:140] for c, v in arms.get("Enum", [])])
         FT = "darling_core::ast::data::Fields::<F>::try_from((a1 as Struct).0.fields)"
         st = sorted(v for c, v in arms.get("Struct", []))
@@ -162,6 +177,11 @@ def run(ctx):
         ctx.ob("C16.E.union-is-error", f.key, "Union → Err", ok, "%s" % arms.get("Union"))
         hs = [h for h in ctx.per_element(f, r"FromVariant(>)?::from_variant$")]
         ok = len(hs) == 1 and hs[0]["form"] in ("adapter", "loop") and "iter((a1 as Enum).0.variants)" in hs[0]["source"].replace("syn::punctuated::Punctuated::<T, P>::", "")
+        # … and the walk does not stop early: collecting into Option<_> / Result<_, _> ends at the first
+        # variant that failed, leaving the later ones unvisited (their errors unreported)
+        shortc = [mir.callee_info(t_).get("targs") for _, t_ in ctx.find_calls(f, r"Iterator(>)?::collect$") if any(str(x).startswith(("core::option::Option<", "core::result::Result<")) for x in (mir.callee_info(t_).get("targs") or [])[1:])]
+        shortc += [mir.callee_of(t_) for _, t_ in ctx.find_calls(f, r"Iterator(>)?::(try_for_each|try_fold|map_while|take_while|find_map|find|all|any)$")]
+        ctx.ob("C16.G.every-variant-visited", f.key, "no short-circuiting walk over the variants / fields", not shortc, "short-circuiting adapters: %s" % shortc)
         ctx.ob("C16.G.one-entry-per-variant-in-order", f.key, "from_variant once per variant of variants.iter()", ok, "%s" % [(h["form"], h["source"][:140]) for h in hs])
     f = ctx.fn("darling_core::ast::data::Fields::<F>::try_from")
     if f:
